@@ -8,7 +8,7 @@ Extraction "model_gen.ml"
   col_name_to_number col_number_to_name split_cell_name join_cell_name
   cell_name_to_coords coords_to_cell_name
   encode_float encode_exact decode_float is_num days_of_civil civil_of_days excel_serial_spec decode_exact_ns
-  Sheet.Model.run Sheet.Model.observe Sheet.Model.get_rows Sheet.Model.empty_sheet Sheet.Model.abs Sheet.Model.get_cell_style Sheet.Model.xml_rows Sheet.Model.has_value
+  Sheet.Model.run Sheet.Model.observe Sheet.Model.get_rows Sheet.Model.get_cols Sheet.Model.empty_sheet Sheet.Model.abs Sheet.Model.get_cell_style Sheet.Model.xml_rows Sheet.Model.has_value
   C16.Model.wrun C16.Model.init_wb C16.Model.active_index C16.Model.consistent C16.Model.scope_name
   C17.Model.run_styles C17.Model.init_reg
   Sheet.Adjust.erun
